@@ -30,6 +30,15 @@ type twoRegistries struct {
 	service    map[string]string // registry -> service name it puts in its challenge (its own name or the other registry's)
 }
 
+// c16Lab: a host as it appears inside user names and secrets (no colon).
+func c16Lab(h string) string {
+	if !strings.Contains(h, ":") {
+		return h
+	}
+	// no label may be a substring of another (the transport scans for secrets by substring)
+	return strings.ReplaceAll(strings.ReplaceAll(h, ":", "_"), ".", "_")
+}
+
 func (p *twoRegistries) scan(req *http.Request, dstHost string, allowed []string) {
 	var hay []string
 	for _, vs := range req.Header {
@@ -88,8 +97,9 @@ func (p *twoRegistries) resp(req *http.Request, code int, body string) *http.Res
 func (p *twoRegistries) RoundTrip(req *http.Request) (*http.Response, error) {
 	host := req.URL.Host
 	p.log = append(p.log, req.Method+" "+host+req.URL.Path)
-	switch host {
-	case "a.io", "b.io":
+	_, isRegistry := p.mode[host]
+	switch {
+	case isRegistry:
 		p.scan(req, host, []string{host})
 		p.sends[host]++
 		auth := req.Header.Get("Authorization")
@@ -101,14 +111,14 @@ func (p *twoRegistries) RoundTrip(req *http.Request) (*http.Response, error) {
 		case 0:
 			return p.resp(req, http.StatusOK, "ok"), nil
 		case 1:
-			if u, pw, ok := req.BasicAuth(); ok && u == "user-"+host && pw == "pass-"+host {
+			if u, pw, ok := req.BasicAuth(); ok && u == "user-"+c16Lab(host) && pw == "pass-"+c16Lab(host) {
 				return p.resp(req, http.StatusOK, "ok"), nil
 			}
 			r := p.resp(req, http.StatusUnauthorized, "")
 			r.Header.Set("Www-Authenticate", `Basic realm="`+host+`"`)
 			return r, nil
 		default:
-			if strings.HasPrefix(auth, "Bearer ") && (p.issued[auth[7:]] == host || auth[7:] == "access-"+host) {
+			if strings.HasPrefix(auth, "Bearer ") && (p.issued[auth[7:]] == host || auth[7:] == "access-"+c16Lab(host)) {
 				return p.resp(req, http.StatusOK, "ok"), nil
 			}
 			realmHost := "auth." + host
@@ -120,7 +130,7 @@ func (p *twoRegistries) RoundTrip(req *http.Request) (*http.Response, error) {
 			r.Header.Set("Www-Authenticate", `Bearer realm="https://`+realmHost+`/token",service="`+p.service[host]+`",scope="repository:x:pull"`)
 			return r, nil
 		}
-	case "auth.a.io", "auth.b.io", "auth.shared.io":
+	case strings.HasPrefix(host, "auth."):
 		// the token service a registry advertised may see that registry's password / refresh token
 		svc := req.URL.Query().Get("service")
 		if req.Method == http.MethodPost {
@@ -154,16 +164,18 @@ func (p *twoRegistries) RoundTrip(req *http.Request) (*http.Response, error) {
 // answer within three sends and one token fetch per request.
 func VerifC16Hosts() {
 	k := verifrt.Param("k", 2)
+	// the second registry is another name, or the same name on another port
+	hostB := []string{"b.io", "a.io:8443"}[verifrt.Choice(2)]
 	peer := &twoRegistries{mode: map[string]int{}, secrets: map[string][]string{}, issued: map[string]string{},
 		sends: map[string]int{}, tokenHits: map[string]int{}, advertised: map[string]string{}, service: map[string]string{}}
-	for _, h := range []string{"a.io", "b.io"} {
+	for _, h := range []string{"a.io", hostB} {
 		peer.mode[h] = verifrt.Choice(4)
-		peer.secrets[h] = []string{"pass-" + h, "refresh-" + h, "access-" + h}
+		peer.secrets[h] = []string{"pass-" + c16Lab(h), "refresh-" + c16Lab(h), "access-" + c16Lab(h)}
 		peer.service[h] = h
 	}
 	// a registry may name the other registry as the token "service" in its challenge
 	if verifrt.Bool() {
-		peer.service["a.io"] = "b.io"
+		peer.service["a.io"] = hostB
 	}
 	credKind := verifrt.Choice(3) // 0 password, 1 refresh token, 2 access token
 	noCredForA := verifrt.Bool()  // registry a.io has no credential configured
@@ -171,17 +183,17 @@ func VerifC16Hosts() {
 		Client: &http.Client{Transport: peer},
 		Credential: func(ctx context.Context, hostport string) (Credential, error) {
 			switch hostport {
-			case "a.io", "b.io":
+			case "a.io", hostB:
 				if hostport == "a.io" && noCredForA {
 					return EmptyCredential, nil
 				}
 				switch credKind {
 				case 1:
-					return Credential{RefreshToken: "refresh-" + hostport}, nil
+					return Credential{RefreshToken: "refresh-" + c16Lab(hostport)}, nil
 				case 2:
-					return Credential{AccessToken: "access-" + hostport}, nil
+					return Credential{AccessToken: "access-" + c16Lab(hostport)}, nil
 				}
-				return Credential{Username: "user-" + hostport, Password: "pass-" + hostport}, nil
+				return Credential{Username: "user-" + c16Lab(hostport), Password: "pass-" + c16Lab(hostport)}, nil
 			}
 			return EmptyCredential, nil
 		},
@@ -194,7 +206,7 @@ func VerifC16Hosts() {
 	}
 	client.ForceAttemptOAuth2 = verifrt.Bool()
 	for step := 0; step < k; step++ {
-		host := []string{"a.io", "b.io"}[verifrt.Choice(2)]
+		host := []string{"a.io", hostB}[verifrt.Choice(2)]
 		if step > 0 && verifrt.Param("switch", 1) != 0 && verifrt.Bool() {
 			peer.mode[host] = verifrt.Choice(4) // the registry changes its scheme mid-history
 		}
